@@ -234,8 +234,9 @@ fn reference_names(t: &Template) -> BTreeMap<&'static str, String> {
     t.slots.iter().map(|(s, n, _)| (*s, n.to_string())).collect()
 }
 
-fn variants(t: &Template, thorough: bool) -> Vec<Variant> {
+fn variants(t: &Template, thorough: bool, seed: u64) -> Vec<Variant> {
     let mut out = vec![];
+    let mut single_skipped = 0u64;
     let reference = reference_names(t);
     let pool = pool();
     let ok_for = |kind: Kind, (name, value_ok): (&str, bool)| -> bool {
@@ -261,6 +262,13 @@ fn variants(t: &Template, thorough: bool) -> Vec<Variant> {
                 if !thorough && p.0.starts_with("__") && !matches!(p.0, "__0" | "__sym0" | "__" | "__Symbol" | "__parse__Start") {
                     continue;
                 }
+                // quick: a seed-rotated half of the single-slot renamings; the names generated
+                // expansions use unprefixed are always kept
+                if !thorough && !matches!(p.0, "v" | "e" | "error" | "Expr0" | "Expr1" | "Inner0" | "Tail_3f" | "_22a_22_2b") && (out.len() as u64 + seed) % 2 == 1 {
+                    single_skipped += 1;
+                    out.push(Variant { what: String::new(), kind: "skip", names: BTreeMap::new(), cg });
+                    continue;
+                }
                 let mut names = reference.clone();
                 names.insert(slot, p.0.to_string());
                 out.push(Variant { what: format!("{}:={}", slot, p.0), kind: "variants_single_slot", names, cg });
@@ -275,7 +283,7 @@ fn variants(t: &Template, thorough: bool) -> Vec<Variant> {
                 continue;
             }
             // quick: pairs that involve a grammar parameter, the macro name or the start symbol
-            if !thorough && !matches!(*s1, "gp" | "gq") {
+            if !thorough && !(matches!(*s1, "gp" | "gq") && (t.intern || matches!(*s2, "gp" | "gq" | "L" | "S" | "E" | "b0" | "b2"))) {
                 continue;
             }
             for p1 in &short {
@@ -325,6 +333,8 @@ fn variants(t: &Template, thorough: bool) -> Vec<Variant> {
             out.push(Variant { what: format!("rotation {}", r), kind: "variants_rotation", names, cg });
         }
     }
+    let _ = single_skipped;
+    out.retain(|v| v.kind != "skip");
     out
 }
 
@@ -354,7 +364,7 @@ fn run(ctx: &mut Ctx) {
     let replay = ctx.replay.clone();
     let mut case_no = 0u64;
     for t in [&TA, &TB] {
-        let mut vars = variants(t, thorough);
+        let mut vars = variants(t, thorough, ctx.seed);
         if let Some(case) = &replay {
             if case["template"].as_str() != Some(t.name) {
                 continue;
